@@ -4,6 +4,7 @@ pub mod refmodel;
 pub mod proc;
 pub mod zv;
 pub mod bind;
+pub mod envp;
 pub mod gitx;
 
 use std::collections::BTreeMap;
